@@ -48,6 +48,7 @@ type converter struct {
 	varCounter                    int
 	ifCounter                     int
 	forCounter                    int
+	endCounter                    int
 	endLabels                     []string
 	funcs                         []funcInfo
 	funcCounter                   int
@@ -818,7 +819,8 @@ func (c *converter) addEndLine(line string) {
 }
 
 func (c *converter) mustCurrentForLabel() string {
-	return forLabel(c.forCounter - 1)
+	// The innermost open loop, not the most recently allocated one.
+	return c.fors[len(c.fors)-1].label
 }
 
 func (c *converter) mustCurrentForVar() string {
@@ -880,7 +882,8 @@ func (c *converter) popEndLabel() string {
 }
 
 func (c *converter) nextEndLabel() string {
-	c.endLabels = append(c.endLabels, fmt.Sprintf(":_e%d", len(c.endLabels)))
+	c.endLabels = append(c.endLabels, fmt.Sprintf(":_e%d", c.endCounter)) // Every loop gets its own end label.
+	c.endCounter++
 	return c.mustCurrentEndLabel()
 }
 
